@@ -49,6 +49,20 @@ type kit[T any] struct {
 	drain   func()
 	dupSafe func(u *T) bool
 	stat    func(r *rng.R, res string) statScen[T]
+	// genRule: a valid rule of a strategy no built-in generator serves; the harness registers a
+	// generator for it (once per process) that runs genAct when it is called and yields no controller
+	genRule func(res string) *T
+}
+
+// genAct is what the harness-registered generators do when the build calls them (one shot): nothing,
+// panic (a failing load), or send requests (a request decided while a reload is in progress).
+var genAct func()
+
+func runGenAct() {
+	if f := genAct; f != nil {
+		genAct = nil
+		f()
+	}
 }
 
 type metaScen[T any] struct {
@@ -57,6 +71,12 @@ type metaScen[T any] struct {
 	Case     rulesh.Case[T]
 	SegAfter [][]ev // traffic after operation k (run B); run A sends all of it after operation 0
 	FirstSeg int    // number of steps before the first reload position
+	// InGenOf[k] = s >= 1: operation k is the first load of the burst before segment s and the first
+	// requests of that segment are issued from inside the generator called by that load
+	InGenOf map[int]int
+	Segs    [][]ev
+	SegIdx  []int // SegAfter[k] = Segs[SegIdx[k]] (-1: none)
+	JRand   map[int]int // fallback number of in-generator requests
 }
 
 func cloneID[T any](m *rulesh.Mod[T], t *T, k, j int) *T {
@@ -110,7 +130,7 @@ func genMeta[T any](kt *kit[T], r *rng.R, id int, suffix string) metaScen[T] {
 		}
 		return out
 	}
-	add := func(final bool) {
+	add := func(final bool, gen string) {
 		k := len(sc.Case.Ops)
 		whole := r.Chance(1, 2)
 		o := rulesh.Op[T]{Kind: "res", Res: 1}
@@ -118,23 +138,74 @@ func genMeta[T any](kt *kit[T], r *rng.R, id int, suffix string) metaScen[T] {
 			o = rulesh.Op[T]{Kind: "all"}
 		}
 		o.Rules = mkList(k, final, whole)
+		if gen != "" {
+			// the rule served by the harness-registered generator, somewhere in the list
+			g := cloneID(m, kt.genRule(res), k, 90)
+			at := r.Intn(len(o.Rules) + 1)
+			o.Rules = append(o.Rules[:at], append([]*T{g}, o.Rules[at:]...)...)
+			o.Gen = gen
+		}
 		sc.Case.Ops = append(sc.Case.Ops, o)
 	}
-	add(true)
+	add(true, "")
 	sc.SegAfter = append(sc.SegAfter, segs[0])
+	sc.SegIdx = append(sc.SegIdx, 0)
 	sc.FirstSeg = len(segs[0])
+	sc.Segs = segs
+	sc.InGenOf = map[int]int{}
+	sc.JRand = map[int]int{}
 	for s := 1; s < len(segs); s++ {
 		nb := 1 + r.Intn(3)
+		// what the custom generator does in each load of the burst: a failing load anywhere, requests
+		// from inside the build only in the first load (the list in force then is the one the last
+		// effective load of the previous burst left: no surplus copies of the subject rule)
+		modes := make([]string, nb)
+		lastEff := -1
 		for b := 0; b < nb; b++ {
-			add(b == nb-1)
+			if kt.genRule != nil {
+				switch x := r.Intn(8); {
+				case x < 2:
+					modes[b] = "fail"
+				case x < 4 && b == 0:
+					modes[b] = "traffic"
+				case x < 5:
+					modes[b] = "ignored"
+				}
+			}
+			if modes[b] != "fail" {
+				lastEff = b
+			}
+		}
+		for b := 0; b < nb; b++ {
+			k := len(sc.Case.Ops)
+			// the list left in force by the burst is that of its last load that does not fail; a
+			// load with in-generator traffic is followed by traffic of its own
+			add(b >= lastEff || modes[b] == "traffic", modes[b])
+			if modes[b] == "traffic" {
+				sc.InGenOf[k] = s
+				sc.JRand[k] = 1 + r.Intn(3)
+			}
 			if b == nb-1 {
 				sc.SegAfter = append(sc.SegAfter, segs[s])
+				sc.SegIdx = append(sc.SegIdx, s)
 			} else {
 				sc.SegAfter = append(sc.SegAfter, nil)
+				sc.SegIdx = append(sc.SegIdx, -1)
 			}
 		}
 	}
 	return sc
+}
+
+// guardReq runs one request; a panic of the code under test is caught and returned as text.
+func guardReq(f func()) (fault string) {
+	defer func() {
+		if x := recover(); x != nil {
+			fault = fmt.Sprint("panicked: ", x)
+		}
+	}()
+	f()
+	return ""
 }
 
 func metaBaseMs(id int) uint64 { return 1700000000000 + uint64(id%modSpan)*50000000 }
@@ -158,19 +229,65 @@ func runMeta[T any](x *runner, kt *kit[T], id int, corr bool) {
 	obsA := rulesh.RunHooked(m, caseA, false, func(k int) {
 		for _, seg := range scA.SegAfter {
 			for _, e := range seg {
-				decA = append(decA, reqA(e))
+				if f := guardReq(func() { decA = append(decA, reqA(e)) }); f != "" {
+					fail("C14_behaviour_invisible", "request-panicked-in-rule-check", fmt.Sprintf("request %d of run A: %s", len(decA), f))
+				}
 			}
 		}
 		kt.drain()
 	})
-	// run B: with reloads
+	// run B: with reloads. A load marked "fail" meets a panicking generator (it must report an error
+	// and leave everything as it was); a load marked "traffic" has the first requests of the coming
+	// segment issued from inside the generator, i.e. while the reload is half done: up to and including
+	// the first request that run A did not simply admit (there the subject rule's state decides)
 	clk.SetMs(metaBaseMs(id))
 	clk.TakeSleeps()
 	var decB []dec
 	reqB := kt.newRun(scB.Case.Res[1], scB.U)
-	obsB := rulesh.RunHooked(m, scB.Case, false, func(k int) {
-		for _, e := range scB.SegAfter[k] {
-			decB = append(decB, reqB(e))
+	segStart := make([]int, len(scB.Segs)+1)
+	for s2, seg := range scB.Segs {
+		segStart[s2+1] = segStart[s2] + len(seg)
+	}
+	consumed := map[int]int{} // segment -> requests already issued from inside a generator
+	var reqFault string
+	send := func(e ev) {
+		if f := guardReq(func() { decB = append(decB, reqB(e)) }); f != "" && reqFault == "" {
+			reqFault = fmt.Sprintf("request %d of run B: %s", len(decB), f)
+		}
+	}
+	inGen := 0
+	obsB := rulesh.RunHooked2(m, scB.Case, false, func(k int) {
+		genAct = nil
+		switch scB.Case.Ops[k].Gen {
+		case "fail":
+			genAct = func() { panic("generator failure injected by the harness") }
+		case "traffic":
+			s2 := scB.InGenOf[k]
+			seg := scB.Segs[s2]
+			j := scB.JRand[k]
+			for i := range seg {
+				if a := segStart[s2] + i; a < len(decA) && !(decA[a].Out == "pass" && decA[a].Wait == 0) && decA[a].Out != "release" {
+					j = i + 1
+					break
+				}
+			}
+			if j > len(seg) {
+				j = len(seg)
+			}
+			genAct = func() {
+				for i := 0; i < j; i++ {
+					send(seg[i])
+				}
+				consumed[s2] = j
+				inGen += j
+			}
+		}
+	}, func(k int) {
+		genAct = nil
+		if s2 := scB.SegIdx[k]; s2 >= 0 {
+			for _, e := range scB.Segs[s2][consumed[s2]:] {
+				send(e)
+			}
 		}
 		if k == len(scB.Case.Ops)-1 {
 			kt.drain()
@@ -180,9 +297,27 @@ func runMeta[T any](x *runner, kt *kit[T], id int, corr bool) {
 	x.rep.Count(m.Name+"_meta_kind_"+scB.Kind, 1)
 	x.rep.Count(m.Name+"_meta_reloads", len(scB.Case.Ops)-1)
 	x.rep.Count(m.Name+"_meta_requests", len(decA))
-	for _, ob := range append(obsA, obsB...) {
+	x.rep.Count(m.Name+"_meta_requests_decided_inside_a_reload", inGen)
+	if reqFault != "" {
+		fail("C14_behaviour_invisible", "request-panicked-in-rule-check", reqFault)
+	}
+	for _, ob := range obsA {
 		if ob.Panicked || ob.Err {
-			fail("C14_behaviour_invisible", "load-failed", "a load of the scenario panicked or returned an error: "+ob.ErrText)
+			fail("C14_behaviour_invisible", "load-failed", "the load of run A panicked or returned an error: "+ob.ErrText)
+		}
+	}
+	for k, ob := range obsB {
+		failing := scB.Case.Ops[k].Gen == "fail"
+		switch {
+		case ob.Panicked || (ob.Err && !failing):
+			fail("C14_behaviour_invisible", "load-failed", fmt.Sprintf("load %d of run B panicked or returned an error: %s", k, ob.ErrText))
+		case failing && !ob.Err:
+			fail("C14_failed_load_noop", "failing-generator-not-reported", fmt.Sprintf("load %d of run B met a panicking generator but returned no error", k))
+		case failing:
+			x.rep.Count(m.Name+"_meta_failed_loads", 1)
+			if k > 0 && !rulesh.SameSnaps(m, obsB[k-1].Snaps, ob.Snaps) {
+				fail("C14_failed_load_noop", "failed-load-changed-state", fmt.Sprintf("load %d of run B failed (panicking generator) but the controllers in force / reported rules are not what they were before it", k))
+			}
 		}
 	}
 	// the metamorphic relation
